@@ -68,12 +68,49 @@ def calls_in(fn):
             yield n
 
 
+SIGNATURES = {}     # simple name -> [(params, is_method)] for every function of the analysed package
+
+
+def register_signatures(repo):
+    """Called once per run: lets get_arg() find an argument that the rules name by its
+    parameter name whether the call site passes it by keyword or positionally."""
+    SIGNATURES.clear()
+    for f in repo.all_funcs():
+        if getattr(f, 'is_setter', False):
+            continue
+        SIGNATURES.setdefault(f.name, []).append((list(f.params) + list(f.kwonly), f.cls is not None, f))
+        if f.name == '__init__' and f.cls is not None:
+            SIGNATURES.setdefault(f.cls.name, []).append((list(f.params) + list(f.kwonly), True, f))
+
+
+def _positional_index(call, kw):
+    name = call.func.attr if isinstance(call.func, ast.Attribute) else (call.func.id if isinstance(call.func, ast.Name) else None)
+    sigs = SIGNATURES.get(name) or []
+    idxs = set()
+    for params, is_method, f in sigs:
+        if kw not in params:
+            continue
+        i = params.index(kw)
+        if is_method:
+            # bound call (obj.m(...), Class(...)): self is implicit
+            i -= 1
+        idxs.add(i)
+    if len(idxs) == 1:
+        i = idxs.pop()
+        return i if i >= 0 else None
+    return None
+
+
 def get_arg(call, pos=None, kw=None):
-    """Argument expression by keyword name or position (None if absent)."""
+    """Argument expression by keyword name or position (None if absent).  When only the
+    parameter name is known, the position is looked up in the package's own signatures
+    (unambiguous names only), so `f(x, index=v)` and `f(x, v)` are the same to a rule."""
     if kw is not None:
         for k in call.keywords:
             if k.arg == kw:
                 return k.value
+    if pos is None and kw is not None:
+        pos = _positional_index(call, kw)
     if pos is not None and pos < len(call.args) and \
             not any(isinstance(a, ast.Starred) for a in call.args[:pos + 1]):
         return call.args[pos]
@@ -180,3 +217,38 @@ def stmt_lists(fn):
             v = getattr(n, field, None)
             if isinstance(v, list) and v and isinstance(v[0], ast.stmt):
                 yield n, field, v
+
+
+def dict_entries(fn, var):
+    """key -> value expression of the dictionary held in local `var`, built by a dict
+    literal / dict(k=v) call and/or `var[k] = v` stores and `var.update({...})` calls
+    (later entries win).  Keys must be string constants; others are ignored."""
+    from .srcmodel import own_nodes
+    out = {}
+    nodes = sorted((n for n in own_nodes(fn) if hasattr(n, 'lineno')), key=lambda n: (n.lineno, n.col_offset))
+    for n in nodes:
+        if isinstance(n, ast.Assign) and len(n.targets) == 1:
+            t = n.targets[0]
+            if isinstance(t, ast.Name) and t.id == var:
+                v = n.value
+                if isinstance(v, ast.Dict):
+                    for k, x in zip(v.keys, v.values):
+                        if isinstance(k, ast.Constant):
+                            out[k.value] = x
+                elif isinstance(v, ast.Call) and dotted(v.func) == 'dict':
+                    for kw in v.keywords:
+                        if kw.arg:
+                            out[kw.arg] = kw.value
+            elif isinstance(t, ast.Subscript) and isinstance(t.value, ast.Name) and t.value.id == var and \
+                    isinstance(t.slice, ast.Constant):
+                out[t.slice.value] = n.value
+        elif isinstance(n, ast.Call) and isinstance(n.func, ast.Attribute) and n.func.attr == 'update' and \
+                isinstance(n.func.value, ast.Name) and n.func.value.id == var:
+            if n.args and isinstance(n.args[0], ast.Dict):
+                for k, x in zip(n.args[0].keys, n.args[0].values):
+                    if isinstance(k, ast.Constant):
+                        out[k.value] = x
+            for kw in n.keywords:
+                if kw.arg:
+                    out[kw.arg] = kw.value
+    return out
